@@ -64,6 +64,10 @@ def ev(t, env, memo=None):
             r = np.linalg.solve(A, b)
     elif op == "zero":
         r = np.zeros_like(ev(t[1], env, memo))
+    elif op == "eye":
+        r = np.eye(ev(t[1], env, memo).shape[0])
+    elif op == "tan":
+        r = np.tan(ev(t[1], env, memo))
     elif op == "exp":
         r = np.exp(ev(t[1], env, memo))
     elif op == "sqrt":
@@ -151,3 +155,129 @@ def evmp(t, env, mp, memo=None):
         raise ValueError("unknown term constructor %r" % (op,))
     memo[key] = r
     return r
+
+
+def evm(t, env, mp, memo=None, idx=None):
+    """mpmath evaluation with matrix values (mp.matrix) and scalars; adds the constructors
+      ["eye", X] identity shaped like X          ["lefthalf", X] first half of the columns
+      ["series", "k", body]  sum over k = 0, 1, 2, ... of body   (stops when three consecutive terms are below
+                              10^-(dps-8) of the partial sum and k exceeds env["__kmin"]; env["__kmax"] is a hard cap)
+      ["idx", "k"] the running index        ["mpow", X, k] matrix power (k a non-negative integer term)
+      ["fact", k] factorial                  ["tan", a]"""
+    if memo is None:
+        memo = {}
+    if idx is None:
+        idx = {}
+    op = t[0]
+    dep = op in ("idx", "series") or (bool(idx) and _uses_idx(t))
+    key = id(t)
+    if not dep and key in memo:
+        return memo[key]
+    f = lambda u: evm(u, env, mp, memo, idx)  # noqa
+    ismat = lambda x: isinstance(x, mp.matrix)  # noqa
+    if op == "var":
+        r = env[t[1]]
+    elif op == "num":
+        r = mp.mpf(t[1])
+    elif op == "one":
+        r = mp.mpf(1)
+    elif op == "rat":
+        r = mp.mpf(t[1]) / mp.mpf(t[2])
+    elif op == "I":
+        r = mp.mpc(0, 1)
+    elif op == "idx":
+        r = idx[t[1]]
+    elif op in ("add", "sub"):
+        r = f(t[1])
+        for u in t[2:]:
+            r = (r + f(u)) if op == "add" else (r - f(u))
+    elif op == "neg":
+        r = -f(t[1])
+    elif op == "mul":
+        r = f(t[1])
+        for u in t[2:]:
+            v = f(u)
+            if ismat(r) and ismat(v):
+                raise ValueError("mul of two matrices: use matmul")
+            r = r * v
+    elif op == "div":
+        r = f(t[1]) / f(t[2])
+    elif op == "matmul":
+        r = f(t[1]) * f(t[2])
+    elif op == "solve":
+        r = mp.lu_solve(f(t[1]), f(t[2]))
+    elif op == "zero":
+        x = f(t[1])
+        r = mp.zeros(x.rows, x.cols) if ismat(x) else mp.mpf(0)
+    elif op == "eye":
+        r = mp.eye(f(t[1]).rows)
+    elif op == "lefthalf":
+        x = f(t[1])
+        r = x[:, : x.cols // 2]
+    elif op == "fact":
+        k = int(f(t[1]))
+        last = memo.get("fact")
+        if last is not None and 0 <= k - last[0] <= 4:
+            kk, r = last
+            while kk < k:
+                kk += 1
+                r = r * kk
+        else:
+            import math
+            r = mp.mpf(math.factorial(k))
+        memo["fact"] = (k, r)
+    elif op == "mpow":
+        k = int(f(t[2]))
+        ck = ("mpow", repr(t[1]))
+        pw = memo.setdefault(ck, {})
+        if k in pw:
+            r = pw[k]
+        elif k - 1 in pw:
+            r = pw[k - 1] * f(t[1])
+        else:
+            r = f(t[1]) ** k
+        pw[k] = r
+        pw.pop(k - 3, None)
+    elif op == "series":
+        name = t[1]
+        kmin = env.get("__kmin", 10)
+        kmax = env.get("__kmax", 100000)
+        tol = mp.mpf(10) ** (-(mp.mp.dps - 8))
+        total = None
+        small = 0
+        k = 0
+        while True:
+            idx2 = dict(idx)
+            idx2[name] = mp.mpf(k)
+            term = evm(t[2], env, mp, memo, idx2)
+            total = term if total is None else total + term
+            nt = mp.mnorm(term, 1) if ismat(term) else abs(term)
+            ns = mp.mnorm(total, 1) if ismat(total) else abs(total)
+            small = small + 1 if nt <= tol * ns else 0
+            if (small >= 3 and k >= kmin) or nt == 0 and small >= 3:
+                break
+            k += 1
+            if k > kmax:
+                raise ArithmeticError("series did not converge in %d terms" % kmax)
+        r = total
+    elif op in ("exp", "sqrt", "sin", "cos", "tan", "sinh", "cosh"):
+        r = getattr(mp, op)(f(t[1]))
+    elif op == "abs":
+        r = abs(f(t[1]))
+    elif op == "re":
+        r = mp.re(f(t[1]))
+    elif op == "im":
+        r = mp.im(f(t[1]))
+    else:
+        raise ValueError("unknown term constructor %r" % (op,))
+    if not dep:
+        memo[key] = r
+    return r
+
+
+def _uses_idx(t):
+    if isinstance(t, list) and t:
+        if t[0] == "idx":
+            return True
+        return any(_uses_idx(u) for u in t[1:] if isinstance(u, list))
+    return False
